@@ -2,33 +2,35 @@
 from core import prop, EXPLAIN, ASSUME
 import rules_asm  # noqa
 
-prop("C04", ["T-ASM-SIZE", "T-HANDBUILT", "T-ASMLINE-SIBLINGS", "T-OPT-SIZE", "T-ZP-THRESHOLD"])
+prop("C04", ["T-ASM-SIZE", "T-HANDBUILT", "T-ASMLINE-SIBLINGS", "T-OPT-SIZE", "T-ZP-THRESHOLD", "T-INLINE-COPY"])
 
 
 import rules_tables  # noqa
 
-prop("C03", ["T-LB-EQUIV", "T-LB-RANGE", "T-ASMLINE-SIBLINGS", "T-HANDBUILT", "T-CMPXFORM", "T-ASM-SIZE"])
+prop("C03", ["T-LB-EQUIV", "T-LB-RANGE", "T-ASMLINE-SIBLINGS", "T-HANDBUILT", "T-CMPXFORM", "T-ASM-SIZE", "T-INLINE-COPY"])
 import rules_literals  # noqa
-prop("C09", ["T-ESC", "T-STR-NUL", "T-CPP-SCAN-SIBLINGS"])
+prop("C09", ["T-ESC", "T-STR-NUL", "T-CPP-SCAN-SIBLINGS", "T-LITERAL-PAIR"])
 import rules_cpp  # noqa
-prop("C07", ["T-CPP-FSM", "T-CPP-GUARD", "T-CPP-EVAL"])
-prop("C08", ["T-CPP-REGEX", "T-CPP-PARALLEL", "T-CPP-D"])
-prop("C06", ["T-LINEMAP", "T-ERR-SOURCE", "T-LOC-SIBLINGS", "T-OFFSET-LINE", "T-LOC-INDEX"])
+prop("C07", ["T-CPP-FSM", "T-CPP-GUARD", "T-CPP-EVAL", "T-CPP-PARALLEL"])
+prop("C08", ["T-CPP-REGEX", "T-CPP-PARALLEL", "T-CPP-D", "T-CPP-DEFINE-SYNTAX"])
+prop("C06", ["T-LINEMAP", "T-ERR-SOURCE", "T-LOC-SIBLINGS", "T-OFFSET-LINE", "T-LOC-INDEX", "T-CTX-RESTORE"])
 import rules_opt  # noqa
 prop("C02", ["T-OPT-PROT", "T-OPT-KILL", "T-OPT-BARRIER", "T-OPT-PEEK", "T-INLINE-COPY", "T-OPT-SIZE"])
-prop("C14", ["T-INLINE-COPY", "T-INLINE-LABELS", "T-LABEL-KILL", "T-LABEL-UNIQUE"])
+prop("C14", ["T-INLINE-COPY", "T-INLINE-LABELS", "T-LABEL-KILL", "T-LABEL-UNIQUE", "T-OPT-KILL", "T-OPT-BARRIER"])
 prop("C18", ["T-CSLEEP", "T-DUMMY-ZP", "T-PROTECT-REGION", "T-OPT-PROT", "T-OPT-BARRIER", "T-FLAGS-DIRTY"])
 prop("C10", ["T-PREC", "T-CALC-OPS", "T-FOLD", "T-DIV-GUARD", "T-SIZEOF", "M-DIV-SITES"])
 import rules_total  # noqa
 import rules_treewalk  # noqa
-prop("C16", ["T-TREEWALK", "T-PRATT-TOTAL", "T-TOKEN-DOMAIN", "T-ERR-UNWRAP", "T-LOC-INDEX", "T-VARIANT-FLOW", "T-DIV-GUARD", "T-INUSE-CLOSURE", "T-LOOP-EXIT-SIBLINGS", "M-ERR-UNWRAP", "M-DIV-SITES"])
+prop("C16", ["T-TREEWALK", "T-PRATT-TOTAL", "T-TOKEN-DOMAIN", "T-ERR-UNWRAP", "T-LOC-INDEX", "T-VARIANT-FLOW", "T-DIV-GUARD", "T-INUSE-CLOSURE", "T-LOOP-EXIT-SIBLINGS", "T-LOOP-PROGRESS", "T-REC-BOUND", "M-ERR-UNWRAP", "M-DIV-SITES", "T-COUNTER-RESET"])
 import rules_misc  # noqa
 prop("C12", ["T-CALL-EMIT", "T-CALL-RECORD", "T-CALL-WRITERS", "T-INUSE-CLOSURE"])
-prop("C11", ["T-OPTION-CONFINE", "T-ASMLINE-SIBLINGS", "T-CPP-SCAN-SIBLINGS", "T-OPT-PEEK"])
+prop("C11", ["T-OPTION-CONFINE", "T-ASMLINE-SIBLINGS", "T-CPP-SCAN-SIBLINGS", "T-OPT-PEEK", "T-LISTING-FORMAT"])
 prop("C05", ["T-HASH-ITER", "T-ORDER-FRESH", "T-NONDET-API", "M-HASH-SITES", "M-NONDET"])
-prop("C15", ["T-CMPXFORM", "T-FLAGS-DIRTY", "T-LABEL-KILL"])
+prop("C15", ["T-CMPXFORM", "T-FLAGS-DIRTY", "T-LABEL-KILL", "T-LB-EQUIV", "T-OPT-KILL", "T-OPT-BARRIER"])
 import rules_flow  # noqa
 import rules_mir  # noqa
-prop("C01", ["T-PREC", "T-BRANCH", "T-CMPXFORM", "T-STACK-PAIR", "T-FLAGS-DIRTY", "T-FLAGS-VALUE", "T-LABEL-KILL"])
-prop("C13", ["T-ASM-MODE", "T-LABEL-UNIQUE", "T-LABEL-DEF", "T-CONTINUE-FLAG", "T-LOOP-EXIT-SIBLINGS", "T-INLINE-LABELS", "T-HANDBUILT"])
-prop("C17", ["T-ASM-PORT", "T-RMW-GUARD"])
+import rules_term  # noqa
+import rules_r3  # noqa
+prop("C01", ["T-PREC", "T-BRANCH", "T-CMPXFORM", "T-STACK-PAIR", "T-FLAGS-DIRTY", "T-FLAGS-VALUE", "T-LABEL-KILL", "T-OPT-KILL", "T-OPT-BARRIER", "T-OPT-PROT", "T-OPT-PEEK", "T-LB-EQUIV", "T-INLINE-COPY", "T-CARRY-SCOPE", "T-DEFERRED-BRANCH"])
+prop("C13", ["T-ASM-MODE", "T-LABEL-UNIQUE", "T-LABEL-DEF", "T-CONTINUE-FLAG", "T-LOOP-EXIT-SIBLINGS", "T-INLINE-LABELS", "T-HANDBUILT", "T-INUSE-CLOSURE", "T-CALL-RECORD"])
+prop("C17", ["T-ASM-PORT", "T-RMW-GUARD", "T-OPT-KILL"])
